@@ -139,7 +139,8 @@ class ProxyProtocolV1(object):
         try:
             packed = socket.inet_pton(addr_family, ip_string.decode('ascii'))
             return socket.inet_ntop(addr_family, packed)
-        except (UnicodeDecodeError, socket.error):
+        except (ValueError, socket.error):
+            # ValueError covers UnicodeDecodeError and embedded null bytes.
             msg = 'Invalid proxy protocol {0} IP format'.format(which)
             raise AssertionError(msg)
 
